@@ -183,7 +183,7 @@ class C08(Check):
             return 'dropped', None
         rho = json.loads(json.dumps(expect_vals([fml.parse_val(x) for x in m['RHO']])))
         h = int(info['HOR'][0])
-        results = []
+        results, results_off, model_diff = [], [], None
         for idx, i in enumerate(ires):
             v = c['variants'][idx // 2]
             det = {'spelling': v['text'], 'unit': c['unit'], 'period': c['period'], 'monitor': 'offline' if idx % 2 == 0 else 'online'}
@@ -202,21 +202,22 @@ class C08(Check):
                     return 'violation', dict(det, expected={'values': rho}, observed=r)
             if idx % 2 == 0:
                 vals = [p[1] for p in i['calls'][0]['value']]
-                if vals != rho:
-                    return 'violation', dict(det, expected={'source': 'model with bounds in samples', 'values': rho}, observed=vals)
+                results_off.append(vals)
+                if vals != rho and model_diff is None:
+                    model_diff = dict(det, expected={'source': 'model with bounds in samples', 'values': rho}, observed=vals)
             else:
                 vals = [r['value'] for r in i['calls']]
                 if not fml.has_future(c['f']):
-                    if vals != rho:
-                        return 'violation', dict(det, expected={'source': 'model with bounds in samples', 'values': rho}, observed=vals)
+                    if vals != rho and model_diff is None:
+                        model_diff = dict(det, expected={'source': 'model with bounds in samples', 'values': rho}, observed=vals)
                 else:
                     pm = parse_fields(mlines[2])
                     if 'ERROR' not in pm and pm['GUARD'] == ['1'] and pm['EXACT'] == ['1']:
                         spec = [None if x == '_' else expect_vals([fml.parse_val(x)])[0] for x in pm['SPEC']]
                         spec = json.loads(json.dumps(spec))
                         badk = [k for k in range(len(vals)) if spec[k] is not None and vals[k] != spec[k]]
-                        if badk:
-                            return 'violation', dict(det, expected={'source': 'rho(phi, w[0..i], i-h) with h in samples', 'values': spec}, observed=vals, differs_at=badk)
+                        if badk and model_diff is None:
+                            model_diff = dict(det, expected={'source': 'rho(phi, w[0..i], i-h) with h in samples', 'values': spec}, observed=vals, differs_at=badk)
                 results.append(vals)
         # offline evaluate() of the pastified specification = the online updates of the pastified specification (before and after pastify(), offline and online)
         if c['kind'] != 'reject':
@@ -227,11 +228,16 @@ class C08(Check):
                 got = [p[1] for p in i['calls'][0]['value']]
                 if got != r:
                     return 'violation', {'spelling': v['text'], 'unit': c['unit'], 'period': c['period'], 'monitor': 'offline after pastify()', 'expected': {'online after pastify()': r}, 'observed': got}
-        # pastified variants must agree with each other (their relation to rho is C03's business)
-        for r in results[1:]:
-            if r != results[0]:
-                return 'violation', {'expected': 'identical online results for equivalent spellings', 'observed': results,
-                                     'spellings': [v['text'] for v in c['variants']], 'unit': c['unit'], 'period': c['period']}
+        # the property: equivalent spellings give identical results, offline and online (pastified or not)
+        for name, rs in (('offline', results_off), ('online', results)):
+            for r in rs[1:]:
+                if r != rs[0]:
+                    return 'violation', {'expected': 'identical %s results for equivalent spellings' % name, 'observed': rs,
+                                         'spellings': [v['text'] for v in c['variants']], 'unit': c['unit'], 'period': c['period']}
+        # what the common result must BE is the subject of C01 / C02 / C03: a difference from the model is a broken tie of the model on which
+        # C08_formula_monitors is stated, not a concrete failure of C08
+        if model_diff is not None:
+            return 'model-differs', model_diff
         return 'ok', None
 
     def nontrivial(self, c):
